@@ -170,7 +170,7 @@ SLOT_TEMPLATES = [
     "{N}. {T}\n{N}. {T}\n", "{N}) {T}\n\n{N}) {T}\n", "- {T}\n\n  {N}. {T}\n",
     ".. image:: {U}\n   :width: {D}\n   :height: {D}\n", "```{{image}} {U}\n:width: {D}\n:height: {D}\n```\n", ".. figure:: {U}\n   :width: {D}\n   :figwidth: {D}\n\n   {T}\n", "```{{figure}} {U}\n:height: {D}\n:figwidth: {D}\n\n{T}\n```\n",
     ".. toc:: {T}\n   :min-level: {D}\n   :max-level: {D}\n\n# {T}\n\n## {T}\n", "```{{toc}}\n:max-level: {D}\n```\n\n# {T}\n", "{D}. {T}\n{D}. {T}\n", "{D}) {T}\n",
-    "[{W}({W})]\n", "${B}$\n", "$$\n{B}\n$$\n", "=={T}== ^{T}^ ~{T}~ ~~{T}~~ ^^{T}^^\n", "- [ ] {T}\n- [x] {T}\n", "&{W};{T} \\&{W}; &amp{T}\n", "{T} http://{L}.com/{L} {T} <{W}@{W}.com>\n",
+    "[{W}({W})]\n", "[{T}({T})]\n", "[{W}({T})] and [{T}({W})]\n", "${B}$\n", "$$\n{B}\n$$\n", "=={T}== ^{T}^ ~{T}~ ~~{T}~~ ^^{T}^^\n", "- [ ] {T}\n- [x] {T}\n", "&{W};{T} \\&{W}; &amp{T}\n", "{T} http://{L}.com/{L} {T} <{W}@{W}.com>\n",
     ">! {T}\n>! {T}\n", "{T} >!{T}!< {T}\n", "<div>\n{T}\n</div>\n\n{T}\n", "<pre>\n\n{B}\n\n\n", "{T}\n===\n\n{T}\n---\n", "{T}\\\n{T}  \n{T}\\\\\\\n{T}\n",
     "> > > > > > {T}\n\n> - {T}\n> - {T}\n>\n> > {T}\n", "- - - - - - {T}\n\n- {T}\n  - {T}\n", "[{L}]: {U}\n", "[{L}]: {U}\n[{W}]: {U} '{T}'\n",
 ]
@@ -274,3 +274,39 @@ def bracket_soup(rng):
         if rng.random() < 0.75:
             parts.append(rng.choice(["", " "]) + words[i % len(words)] + rng.choice(["", " "]))
     return "".join(parts) + "\n\n[foo]: /u 't'\n"
+
+
+URL_UNSAFE = ['"', "<", ">", " ", "'", "`", "\\", "{", "|", "^", "\u00e9", "\n", "\t", "[", "]", "&quot;", "&lt;", "&#34;", "%22", "\x7f", "\u202e", "(", ")", ".."]
+URL_HOSTS = ["[::1]", "[fe80::1%25eth0]", "[fe80::1%eth0]", "[2001:db8::ff00:42:8329]", "[::ffff:192.0.2.1]", "[v1.fe80::a+en1]", "[::]", "[1:2:3:4:5:6:7:8]", "[fe80::1%25]", "[::1%25a%25b]",
+             "127.0.0.1", "example.com", "b\u00fccher.de", "xn--bcher-kva.de", "%65xample.com", "localhost", "", "[", "[]", "[::1", "::1]",
+             # hosts that are not valid IDNA: empty labels, over-long labels, mixed direction, digits at the edge of a right-to-left label, xn-- with non-ASCII
+             "b\u00fccher..example", ".\u00e9xample.org", "\u00e9" + "a" * 70 + ".com", "a\u05d0.com", "\u05d01.com", "xn--b\u00fccher.de", "\u00e9.", "\u00df.\u00df", "-\u00e9-.com", "\u200d.com", "\u0301x.com"]
+
+
+def url_struct(rng):
+    """a URL assembled from its RFC 3986 components (IPv6 / IPvFuture literals with zone ids, user info, ports, IDN hosts valid and invalid, encoded octets) with up to
+    two unsafe characters dropped into random components"""
+    comp = [rng.choice(["http", "https", "ftp", "HTTP", "x+y.z-w", "", "mailto", "data"]), rng.choice(["://", "://", ":", "//", ":/"]), rng.choice(["", "", "user@", "u:p@", "@"]),
+            rng.choice(URL_HOSTS), rng.choice(["", "", ":80", ":", ":x"]), rng.choice(["", "/", "/p/q", "/a%20b", "/%zz"]), rng.choice(["", "?a=1&b=2", "?", "?q=[x]"]), rng.choice(["", "#f", "#", "#a#b"])]
+    for _k in range(rng.randint(0, 2)):
+        j = rng.randrange(len(comp))
+        u = rng.choice(URL_UNSAFE)
+        c = comp[j]
+        cut = rng.randint(0, len(c))
+        if c.endswith("]") and rng.random() < 0.6:
+            cut = len(c) - 1
+        comp[j] = c[:cut] + u + c[cut:]
+    return "".join(comp)
+
+
+def url_doc(rng):
+    """a structured URL in one of the places a destination can stand"""
+    u = url_struct(rng)
+    return rng.choice(["[x](%s)", "[x](<%s>)", "![x](%s)", "[r]: %s\n\n[r]", "[r]: <%s>\n\n![r]", "<%s>", "see %s now", ".. image:: %s", "```{image} %s\n```", "[x](%s \"t\")", "[a](%s) [b](%s)", "[x](%s"]).replace("%s", u) + "\n"
+
+
+def link_tail(rng):
+    """an inline link / image whose destination part is cut or unbalanced in every way, followed by ordinary characters up to the end of the text"""
+    dest = "".join(rng.choice(["foo", "(", ")", "(bar", "a(b)c", "<", ">", "\"t", " ", "\\(", "\\)", "%28", "'", "((", "))", "x y"]) for _ in range(rng.randint(0, 4)))
+    end = rng.choice(["", ")", ").", ") x", "x", "\n", ".", "))", ")(", " \"t\")", " 't'", ")\n\nnext"])
+    return rng.choice(["see [x](", "![x](", "[a [b](", "*[x](", "[x][y](", "- [x]("]) + dest + end + rng.choice(["", "\n"])
